@@ -48,6 +48,8 @@ def fam_traffic(w: World) -> None:
         S.judge_delivery(w, PROP, sut, info['text'], CHECKS, _cfg_ctx(cfg, info, 'traffic'))
         if w.violations:
             return
+        if cfg['async'] and ch.flag(1, 3, 'new_event_loop'):
+            sut.new_event_loop()
 
 
 def fam_corrupted(w: World) -> None:
